@@ -3645,10 +3645,11 @@ class GraphicObject:
                 del kwargs["relative_length"]
             except KeyError:
                 pass
-            self.stroke_width = self.stroke_width.value(
-                relative_length=sqrt(width * width + height * height), **kwargs
-            )
             # A percentage stroke_width is always computed as a percentage of the normalized viewBox diagonal length.
+            self.stroke_width = self.stroke_width.value(
+                relative_length=sqrt((width * width + height * height) / 2.0),
+                **kwargs
+            )
 
     def reify(self):
         """
